@@ -11,47 +11,58 @@ Section stmt_ind2.
   Variable P : stmt -> Prop.
   Hypothesis HSet : forall a e, P (SSet a e).
   Hypothesis HMut : forall a e, P (SMutate a e).
-  Hypothesis HIf : forall c body, Forall P body -> P (SIf c body).
+  Hypothesis HIf : forall c body orelse, Forall P body -> Forall P orelse -> P (SIf c body orelse).
   Fixpoint stmt_ind2 (s : stmt) : P s :=
     match s with
     | SSet a e => HSet a e
     | SMutate a e => HMut a e
-    | SIf c body =>
-        HIf c body ((fix go (l : list stmt) : Forall P l :=
+    | SIf c body orelse =>
+        let go := (fix go (l : list stmt) : Forall P l :=
                        match l with
                        | [] => Forall_nil P
                        | x :: r => Forall_cons x (stmt_ind2 x) (go r)
-                       end) body)
+                       end) in
+        HIf c body orelse (go body) (go orelse)
     end.
 End stmt_ind2.
 
 (* the anonymous inner fixpoints are the top-level list functions *)
-Lemma exec_if : forall truth c body st d,
-  exec_stmt truth (SIf c body) st d = if truth (ev c st d) then exec truth body st d else st.
+Lemma exec_if : forall truth c body orelse st d,
+  exec_stmt truth (SIf c body orelse) st d =
+  exec truth (if truth (ev c st d) then body else orelse) st d.
 Proof.
-  intros. simpl. destruct (truth (ev c st d)); [|reflexivity].
-  revert st. induction body as [|x r IH]; intro st; simpl; [reflexivity|]. apply IH.
+  intros. simpl. generalize (if truth (ev c st d) then body else orelse). intro l.
+  revert st. induction l as [|x r IH]; intro st; simpl; [reflexivity|]. apply IH.
 Qed.
 
-Lemma chk_if : forall W c body D,
-  chk_stmt W (SIf c body) D =
-  if reads_ok W D c then match chk W body D with Some _ => Some D | None => None end else None.
+Lemma chk_if : forall W c body orelse D,
+  chk_stmt W (SIf c body orelse) D =
+  if reads_ok W D c then
+    match chk W body D, chk W orelse D with
+    | Some D1, Some D2 => Some (filter (fun a => mem a D2) D1)
+    | _, _ => None
+    end
+  else None.
 Proof.
   intros. simpl. destruct (reads_ok W D c); [|reflexivity].
-  assert (H : forall D0,
+  assert (H : forall l D0,
     (fix go (l : list stmt) (D1 : list string) : option (list string) :=
        match l with
        | [] => Some D1
        | x :: r => match chk_stmt W x D1 with Some D' => go r D' | None => None end
-       end) body D0 = chk W body D0).
-  { induction body as [|x r IH]; intro D0; simpl; [reflexivity|].
+       end) l D0 = chk W l D0).
+  { induction l as [|x r IH]; intro D0; simpl; [reflexivity|].
     destruct (chk_stmt W x D0); [apply IH|reflexivity]. }
-  rewrite H. reflexivity.
+  rewrite !H. reflexivity.
 Qed.
 
-Lemma writes_if : forall c body, writes_stmt (SIf c body) = writes body.
+Lemma writes_if : forall c body orelse, writes_stmt (SIf c body orelse) = writes body ++ writes orelse.
 Proof.
-  intros. simpl. induction body as [|x r IH]; simpl; [reflexivity|]. rewrite IH. reflexivity.
+  intros. simpl.
+  assert (H : forall l, (fix go (l : list stmt) : list string :=
+                           match l with [] => [] | x :: r => writes_stmt x ++ go r end) l = writes l).
+  { induction l as [|x r IH]; simpl; [reflexivity|]. rewrite IH. reflexivity. }
+  rewrite !H. reflexivity.
 Qed.
 
 (* ------------------------------------------------------------------ agreement of states *)
@@ -111,14 +122,25 @@ Proof.
     + apply agree_upd. exact Ha.
     + intros. apply okP_mono. assumption.
   - intros a e D D' s1 s2 Hc. discriminate.
-  - intros c body HF D D' s1 s2 Hc Ha. rewrite chk_if in Hc.
+  - intros c body orelse HF1 HF2 D D' s1 s2 Hc Ha. rewrite chk_if in Hc.
     destruct (reads_ok W D c) eqn:Er; [|discriminate].
-    destruct (chk W body D) as [D1|] eqn:Eb; [|discriminate]. inversion Hc; subst.
-    rewrite !exec_if. rewrite (ev_agree W D' c s1 s2 d Er Ha).
-    split; [|auto].
-    destruct (truth (ev c s2 d)); [|exact Ha].
-    destruct (list_sound truth W d body HF D' D1 s1 s2 Eb Ha) as [Ha1 Hm].
-    intros a Hok. apply Ha1. apply Hm. exact Hok.
+    destruct (chk W body D) as [D1|] eqn:Eb; [|discriminate].
+    destruct (chk W orelse D) as [D2|] eqn:Eo; [|discriminate]. inversion Hc; subst.
+    rewrite !exec_if. rewrite (ev_agree W D c s1 s2 d Er Ha).
+    destruct (list_sound truth W d body HF1 D D1 s1 s2 Eb Ha) as [Ha1 Hm1].
+    destruct (list_sound truth W d orelse HF2 D D2 s1 s2 Eo Ha) as [Ha2 Hm2].
+    assert (Hsub : forall a, okP W (filter (fun a0 => mem a0 D2) D1) a -> okP W D1 a /\ okP W D2 a).
+    { intros a [H|H]; [split; left; exact H|].
+      unfold mem in H. apply existsb_exists in H. destruct H as [x [Hin Hx]].
+      apply String.eqb_eq in Hx. subst x. apply filter_In in Hin. destruct Hin as [Hin Hm].
+      split; right; [|exact Hm]. unfold mem. apply existsb_exists. exists a. split; [exact Hin|apply String.eqb_refl]. }
+    split.
+    + intros a Hok. destruct (Hsub a Hok) as [H1 H2].
+      destruct (truth (ev c s2 d)); [apply Ha1; exact H1|apply Ha2; exact H2].
+    + intros a Hok. destruct (Hm1 a Hok) as [H|H]; [left; exact H|].
+      destruct (Hm2 a Hok) as [H'|H']; [left; exact H'|]. right.
+      unfold mem in *. apply existsb_exists in H. destruct H as [x [Hin Hx]]. apply String.eqb_eq in Hx. subst x.
+      apply existsb_exists. exists a. split; [|apply String.eqb_refl]. apply filter_In. split; [exact Hin|exact H'].
 Qed.
 
 Lemma prog_sound : forall truth W d p D D' s1 s2,
@@ -150,8 +172,9 @@ Proof.
   intros truth d. apply stmt_ind2; unfold stmt_frame.
   - intros a e st b Hm. simpl in *. rewrite orb_false_r in Hm. unfold upd. rewrite Hm. reflexivity.
   - intros a e st b Hm. simpl in *. rewrite orb_false_r in Hm. unfold upd. rewrite Hm. reflexivity.
-  - intros c body HF st a Hm. rewrite exec_if. rewrite writes_if in Hm.
-    destruct (truth (ev c st d)); [|reflexivity]. apply list_frame; assumption.
+  - intros c body orelse HF1 HF2 st a Hm. rewrite exec_if. rewrite writes_if in Hm.
+    rewrite mem_app in Hm. apply orb_false_iff in Hm. destruct Hm as [H1 H2].
+    destruct (truth (ev c st d)); apply list_frame; assumption.
 Qed.
 
 Lemma prog_frame : forall truth d p st a, mem a (writes p) = false -> exec truth p st d a = st a.
@@ -229,21 +252,23 @@ Fixpoint summary_list (W : list string) (l : list stmt) (D : list string)
               let (s2, D2) := summary_list W r D1 in (s1 ++ s2, D2)
   end.
 
-Lemma summary_if : forall W c body D,
-  summary_stmt W (SIf c body) D =
-  ((if reads_ok W D c then [] else [("<condition>", Unknown)]) ++ fst (summary_list W body D), D).
+Lemma summary_if : forall W c body orelse D,
+  summary_stmt W (SIf c body orelse) D =
+  ((if reads_ok W D c then [] else [("<condition>", Unknown)])
+     ++ fst (summary_list W body D) ++ fst (summary_list W orelse D),
+   filter (fun a => mem a (snd (summary_list W orelse D))) (snd (summary_list W body D))).
 Proof.
   intros. simpl.
-  assert (H : forall D0,
+  assert (H : forall l D0,
     (fix go (l : list stmt) (D1 : list string) : list (string * wclass) * list string :=
        match l with
        | [] => ([], D1)
        | x :: r => let (s1, D2) := summary_stmt W x D1 in
                    let (s2, D3) := go r D2 in (s1 ++ s2, D3)
-       end) body D0 = summary_list W body D0).
-  { induction body as [|x r IH]; intro D0; simpl; [reflexivity|].
+       end) l D0 = summary_list W l D0).
+  { induction l as [|x r IH]; intro D0; simpl; [reflexivity|].
     destruct (summary_stmt W x D0) as [s1 D2]. rewrite IH. reflexivity. }
-  rewrite H. reflexivity.
+  rewrite !H. reflexivity.
 Qed.
 
 Lemma summary_from_list : forall W p D, summary_from W p D = fst (summary_list W p D).
@@ -274,10 +299,11 @@ Proof.
   - intros a e D H. simpl in *. destruct (reads_ok W D e); [reflexivity|].
     destruct (mem a (reads e) && negb (mem a D)); simpl in H; discriminate.
   - intros a e D H. simpl in H. discriminate.
-  - intros c body HF D H. rewrite summary_if in H. simpl in H. rewrite chk_if, summary_if. simpl.
-    rewrite forallb_app in H. apply andb_true_iff in H. destruct H as [H1 H2].
+  - intros c body orelse HF1 HF2 D H. rewrite summary_if in H. simpl in H. rewrite chk_if, summary_if. simpl.
+    rewrite !forallb_app in H. apply andb_true_iff in H. destruct H as [H1 H2].
+    apply andb_true_iff in H2. destruct H2 as [H2 H3].
     destruct (reads_ok W D c); [|simpl in H1; discriminate].
-    rewrite (list_summ W body HF D H2). reflexivity.
+    rewrite (list_summ W body HF1 D H2), (list_summ W orelse HF2 D H3). reflexivity.
 Qed.
 
 (* every write classified SetFromArg (and the output reads only stable or defined attributes)
